@@ -1143,6 +1143,78 @@ def adjustment_proxies(ctx):
             ctx.disagree("adjustments", dict(meta, line=line), i, m)
 
 
+_ELM_ATTRS = ("_element", "_xPr", "_xFill", "_rPr", "_r", "_p", "_pPr", "_txBody", "_tc", "_tr", "_gridCol", "_ln", "_ser", "_chartSpace", "_gs", "_tbl",
+              "_pic", "_sp", "_cxnSp", "_graphicFrame", "_xAx", "_dLbls", "_legend", "_title", "_marker", "_parent", "_bodyPr", "_hlink", "_prstGeom")
+
+
+def _attached(obj, depth=0):
+    """is the element the proxy stands on still part of a part's tree (True), detached (False), or unknown (None)"""
+    for a in _ELM_ATTRS:
+        e = getattr(obj, a, None)
+        if e is None:
+            continue
+        if hasattr(e, "getparent"):
+            top = e
+            while top.getparent() is not None:
+                top = top.getparent()
+            return etree_local(top) in ("sld", "chartSpace", "presentation", "notes", "sldLayout", "sldMaster", "notesMaster")
+        if depth < 3 and not isinstance(e, (str, int, float)):
+            r = _attached(e, depth + 1)
+            if r is not None:
+                return r
+    return None
+
+
+def etree_local(e):
+    t = e.tag
+    return t.rsplit("}", 1)[-1] if isinstance(t, str) else ""
+
+
+def held_proxies(ctx):
+    """every property of the table on objects that are HELD for the whole pass (discovered once) while the same elements are
+    also reached through new proxies: an assignment made through the one must be what the other reads, in both directions -
+    as long as the held proxy still stands on an element of the document (a structural assignment may have replaced it)"""
+    rng = ctx.rng
+    for rep in range(1 if ctx.quick else 4):
+        prs = build_deck()
+        world = oplab.discover(prs)
+        props = oplab.prop_table()
+        todo = []
+        for p in props:
+            if p.name == "text" or p.name.startswith("has_") or p.name in ("auto_size", "number_format", "crosses", "crosses_at"):
+                continue
+            for obj, path in world.objs.get(p.kind, []):
+                todo.append((p, obj, path))
+        rng.shuffle(todo)
+        for p, held, path in todo[: (700 if ctx.quick else 4000)]:
+            try:
+                live = eval(path, {"prs": prs})  # noqa: S307
+            except Exception:  # noqa
+                continue
+            if live is None or _attached(held) is not True:
+                ctx.count("held-proxy-skipped(detached or unknown)")
+                continue
+            for direction, writer, reader in (("new->held", live, held), ("held->new", held, None)):
+                try:
+                    v = p.gen(rng)
+                    setattr(writer, p.name, v)
+                except (TypeError, ValueError):
+                    continue
+                except Exception:  # noqa
+                    break
+                try:
+                    rd_new = reading(eval(path, {"prs": prs}), p.name)  # noqa: S307
+                    rd_held = reading(held, p.name)
+                except Exception:  # noqa
+                    break
+                ctx.case(key=("held-proxy", p.kind, p.name, direction))
+                if rd_new != rd_held and _attached(held) is True:
+                    ctx.fail(f"stale-held-proxy:{p.kind}.{p.name}", f"{path}.{p.name} = {v!r} assigned through {'a new proxy' if direction == 'new->held' else 'the proxy held since discovery'}: "
+                             f"a new proxy reads {rd_new[1]!r}, the held one {rd_held[1]!r}", {"object": path, "property": p.name, "direction": direction})
+                    break
+            ctx.count("held-proxy-checks")
+
+
 def oplab_ns():
     return "http://schemas.openxmlformats.org/drawingml/2006/main"
 
@@ -1403,6 +1475,7 @@ def correspond(ctx):
     shared_relationships(ctx)
     point_order(ctx)
     adjustment_proxies(ctx)
+    held_proxies(ctx)
     rng = ctx.rng
     reps = 6 if ctx.quick else 20
     for r in range(reps):
